@@ -618,8 +618,10 @@ def lla_inverse_bounded(vc):
     ecef = M_.lla2ecef(lla)
     got = np.asarray(M_.ecef2lla(ecef), dtype=float)
     near_pole = abs(abs(lat) - np.pi / 2) < 1e-4
-    # (within ~600 m of a pole the closed form loses the last digits of the latitude: it is held to a metre there - the tolerance of C11 -, to a millimetre elsewhere)
-    ptol, atol, ltol = (1e-3, 1e-3, 1e-6) if near_pole else (1e-6, 1e-6, 1e-9)
+    # (next to the polar axis the closed form loses the last digits of the latitude, about 2e-8 rad: it is held to 3e-8 x geocentric distance there - 0.2 m for a
+    #  ground site, inside the metre of C11; 2 m at ten Earth radii -, to a millimetre elsewhere)
+    rr = float(np.linalg.norm(ecef[:3]))
+    ptol, atol, ltol = (3e-8 * rr, 3e-8 * rr, 1e-6) if near_pole else (1e-6, 1e-6, 1e-9)
     ok_lat = abs(got[0] - lat) < ltol
     ok_lon = abs(np.cos(lat)) < 1e-9 or near_pole or abs((got[1] - lon + np.pi) % (2 * np.pi) - np.pi) < 1e-9
     vc.ensure("B-C04-lla.ecef2lla-lla2ecef", bool(ok_lat and ok_lon and abs(got[2] - alt) < atol))
